@@ -585,6 +585,8 @@ func checkC04(c *Ctx) {
 	// safety: committed revision never reaches the revision of an unfinished storage transaction
 	outOfOrder := false
 	var maxAlloc uint64
+	type finished struct{ rev, ret uint64 }
+	var fin []finished
 	for _, e := range w.KV.GT {
 		if e.Call != "commit" || e.Class != "data" {
 			continue
@@ -610,12 +612,15 @@ func checkC04(c *Ctx) {
 				break
 			}
 		}
-		for _, f := range w.KV.GT {
-			if f != e && f.Call == "commit" && f.Class == "data" && f.RetStep != 0 && e.RetStep != 0 {
-				if _, r2, ok2 := versionRev(f); ok2 && r2 > rev && f.RetStep < e.RetStep {
-					outOfOrder = true
-				}
-			}
+		if e.RetStep != 0 {
+			fin = append(fin, finished{rev, e.RetStep})
+		}
+	}
+	// (probe) did a write with a later revision finish its storage transaction before one with an earlier revision?
+	sort.Slice(fin, func(i, j int) bool { return fin[i].rev < fin[j].rev })
+	for i := 1; i < len(fin); i++ {
+		if fin[i].ret < fin[i-1].ret && fin[i].rev > fin[i-1].rev {
+			outOfOrder = true
 		}
 	}
 	if outOfOrder {
